@@ -236,64 +236,121 @@ def _calls_on_path(repo: Repo, f: Func, path: layout.ReaderPath) -> t.List[t.Any
 
 
 # ------------------------------------------------------------------------- O2 writer
+def _or_set(v: t.Any) -> t.Optional[t.Set[str]]:
+    """Flatten nested (bitor a b) atoms into the set of their operand texts (constants 0 dropped)."""
+    if not isinstance(v, Lin):
+        return None
+    if v.is_const():
+        return set() if v.const == 0 else {str(v.const)}
+    if len(v.terms) == 1 and v.const == 0:
+        (atom, coef), = v.terms.items()
+        if coef == 1 and atom[0] == "bitor":
+            out: t.Set[str] = set()
+            for x in atom[1:]:
+                sub = _or_set(x)
+                if sub is None:
+                    return None
+                out |= sub
+            return out
+    return {repr(v)}
+
+
 def header_writer(repo: Repo, chk: Check) -> None:
+    """Symbolic writer table of _pack_asn1(tag_class, constructed, tag_number, data), one row per combination of
+    (constructed, low/high tag number, short/long length)."""
     f = repo.func("_asn1._pack_asn1")
     chk.analysed(f)
-    txt = unparse(f.node)
-    g = build(f.node)
+    p0, p1, p2, p3 = f.params[:4]
+    paths = layout.writer_paths(repo, f)
+    cls_term = repr(Lin.atom(("lshift", Lin.atom(("field", p0)), Lin(6))))
+    num = Lin.atom(("field", p2))
+    dlen = Lin.atom(("len", p3))
+    rows = 0
+    seen = set()
+    for p in paths:
+        facts: t.Dict[str, bool] = {}
+        thresholds = {}
+        for c, pol in p.conds:
+            cmp_ = c.info.get("cmp")
+            if cmp_ and cmp_[1] == num and cmp_[2].is_const():
+                facts["low"] = pol if cmp_[0] == "lt" else (not pol if cmp_[0] == "ge" else None)  # type: ignore[assignment]
+                thresholds["tag"] = (cmp_[0], cmp_[2].const)
+            elif cmp_ and cmp_[1] == dlen and cmp_[2].is_const():
+                facts["short"] = pol if cmp_[0] == "lt" else (not pol if cmp_[0] == "ge" else None)  # type: ignore[assignment]
+                thresholds["len"] = (cmp_[0], cmp_[2].const)
+            elif c.info.get("nonzero") == Lin.atom(("field", p1)) or c.info.get("truthy") == p1 or c.desc.startswith(p1):
+                facts["constructed"] = pol
+        if "low" not in facts or "short" not in facts or "constructed" not in facts:
+            continue  # paths of the argument validation (they raise or are duplicates)
+        key = (facts["constructed"], facts["low"], facts["short"])
+        if key in seen:
+            continue
+        seen.add(key)
+        rows += 1
+        tag = f"_pack_asn1 [{'constructed' if key[0] else 'primitive'}, {'low' if key[1] else 'high'} tag number, {'short' if key[2] else 'long'} length]"
+        site = Site.of(f, construct=tag)
+        segs = list(p.segs)
+        okt = thresholds.get("tag") in (("lt", 31), ("ge", 31)) and thresholds.get("len") in (("lt", 128), ("ge", 128))
+        chk.ob("O2", site, okt, "identifier form switches at tag number 31, length form at 128" if okt else f"form thresholds are tag {thresholds.get('tag')} / length {thresholds.get('len')}; X.690 8.1.2.4 / 8.1.3.5 say 31 and 128 (the reader switches on exactly those)")
+        # identifier octet
+        want = {cls_term} | ({"32"} if key[0] else set()) | ({repr(num)} if key[1] else {"31"})
+        got = _or_set(segs[0].value) if segs and segs[0].kind == "int" and segs[0].width == 1 else None
+        chk.ob("O2", site, got == want, "identifier octet = class << 6 | constructed << 5 | " + ("number" if key[1] else "0x1F") if got == want else f"identifier octet is composed of {sorted(got) if got is not None else '?'}, expected {sorted(want)}")
+        i = 1
+        if not key[1]:
+            okh = len(segs) > 1 and segs[1].kind == "raw" and segs[1].a.get("call") is not None and segs[1].call.rec.name.endswith("_pack_asn1_octet_number") and (segs[1].call.rec.arg(0) == num or getattr(segs[1].call.rec.arg(0), "path", None) == p2)
+            chk.ob("O2", site, bool(okh), "followed by the base-128 octets of the tag number" if okh else "the high tag number is not followed by _pack_asn1_octet_number(tag_number)")
+            i = 2
+        # length octets
+        if key[2]:
+            okl = len(segs) > i and segs[i].kind == "int" and segs[i].width == 1 and segs[i].value == dlen
+            chk.ob("O2", site, okl, "short form: one octet = len(content)" if okl else f"short form length octet is {segs[i].describe() if len(segs) > i else '?'}")
+            i += 1
+        else:
+            okp = False
+            why = "long form: no 0x80 | count prefix followed by the length octets"
+            if len(segs) > i + 1 and segs[i].kind == "int" and segs[i].width == 1:
+                body = segs[i + 1]
+                count = body.width
+                pre = _or_set(segs[i].value)
+                okp = pre == {repr(count), "128"} and body.kind in ("reversed", "int", "repeat", "raw")
+                why = "long form: 0x80 | number of length octets, then those octets" if okp else f"long form prefix is {sorted(pre) if pre is not None else '?'} for {body.kind} of width {count!r}"
+            chk.ob("O2", site, okp, why)
+            i += 2
+        okd = len(segs) == i + 1 and segs[i].kind == "raw" and segs[i].ref.path == p3
+        chk.ob("O2", site, okd, "then the content octets" if okd else f"the TLV does not end with exactly the content octets ({[sg.kind for sg in segs[i:]]})")
+    chk.count("pack rows", rows)
+    chk.require_min("pack rows", 8)
+    # minimal big-endian long form (loop shape certificate, names bound by matching)
+    ok, why, node = minimal_long_form(repo, f)
+    chk.ob("O2", Site.of(f, node, "long form length octets"), ok, why)
+    guard = [n for n in body_nodes(f.node) if isinstance(n, ast.If) and any(isinstance(x, ast.Raise) for x in n.body) and p0 in unparse(n.test)]
+    chk.ob("O2", Site.of(f, construct="tag class range"), bool(guard), "classes outside 0..3 are rejected")
 
-    def has(fragment: str) -> bool:
-        return fragment in txt
 
-    site = lambda what: Site.of(f, construct=what)  # noqa: E731
-    ok = has("identifier_octets = tag_class << 6") and has("identifier_octets |= (1 if constructed else 0) << 5")
-    chk.ob("O2", site("identifier octet composition"), ok, "class << 6 | constructed << 5" if ok else "identifier octet is not composed as class << 6 | constructed << 5 | number")
-    # threshold: numbers < 31 in the first octet, else 0x1F marker + base-128 octets
-    ifs = [n for n in body_nodes(f.node) if isinstance(n, ast.If) and isinstance(n.test, ast.Compare) and unparse(n.test.left) == f.params[2]]
-    okt = len(ifs) == 1 and isinstance(ifs[0].test.ops[0], ast.Lt) and repo.try_fold(ifs[0].test.comparators[0], f.mod) == (True, 31)
-    chk.ob("O2", Site.of(f, ifs[0].test if ifs else None, None if ifs else "high tag threshold"), okt, "tag numbers below 31 fit the identifier octet" if okt else "the high-tag-number threshold is not 'tag_number < 31' (the reader switches on the value 31)")
-    if ifs:
-        low = " ".join(unparse(s) for s in ifs[0].body)
-        high = " ".join(unparse(s) for s in ifs[0].orelse)
-        okl = "identifier_octets |= tag_number" in low and "append(identifier_octets)" in low
-        okh = "identifier_octets |= 31" in high and "append(identifier_octets)" in high and "_pack_asn1_octet_number(tag_number)" in high
-        chk.ob("O2", Site.of(f, ifs[0]), okl and okh, "low form: number in the octet; high form: 0x1F marker then base-128 octets" if okl and okh else "the two identifier forms are not emitted as specified")
-    guard = [n for n in body_nodes(f.node) if isinstance(n, ast.If) and "tag_class" in unparse(n.test) and any(isinstance(x, ast.Raise) for x in n.body)]
-    chk.ob("O2", site("tag class range"), bool(guard), "classes outside 0..3 are rejected")
-    # length
-    lifs = [n for n in body_nodes(f.node) if isinstance(n, ast.If) and isinstance(n.test, ast.Compare) and unparse(n.test.left) == "length"]
-    okt = len(lifs) == 1 and isinstance(lifs[0].test.ops[0], ast.Lt) and repo.try_fold(lifs[0].test.comparators[0], f.mod) == (True, 128)
-    chk.ob("O2", Site.of(f, lifs[0].test if lifs else None, None if lifs else "short form threshold"), okt, "short form iff length < 128" if okt else "the short/long form threshold is not 'length < 128'")
-    ld = [n for n in body_nodes(f.node) if isinstance(n, ast.Assign) and unparse(n) == f"length = len({f.params[3]})"]
-    chk.ob("O2", site("length = len(data)"), len(ld) == 1, "length octets describe the content actually appended")
-    if lifs:
-        short = " ".join(unparse(s) for s in lifs[0].body)
-        chk.ob("O2", Site.of(f, lifs[0]), "append(length)" in short, "short form: one octet")
-        long_ok, why = minimal_long_form(repo, f, lifs[0].orelse)
-        chk.ob("O2", Site.of(f, lifs[0].orelse[0] if lifs[0].orelse else lifs[0], "long form length octets"), long_ok, why)
-    rets = [n for n in body_nodes(f.node) if isinstance(n, ast.Return)]
-    okr = len(rets) == 1 and unparse(rets[0].value) == f"bytes(b_asn1_data) + bytes({f.params[3]})"
-    chk.ob("O2", Site.of(f, rets[0] if rets else None, None if rets else "return"), okr, "TLV = header octets || content")
-    del g
-
-
-def minimal_long_form(repo: Repo, f: Func, stmts: t.List[ast.stmt]) -> t.Tuple[bool, str]:
-    """DER: the length is encoded in the minimum number of octets, most significant first, prefixed by 0x80 | count."""
-    txt = " ; ".join(unparse(s) for s in stmts)
-    loops = [s for s in stmts if isinstance(s, ast.While)]
-    if loops:
-        lp = loops[0]
-        body = " ; ".join(unparse(s) for s in lp.body)
-        shape = unparse(lp.test) == "length" and "append(length & 255)" in body and "length >>= 8" in body
-        rev = any(unparse(s) == "length_octets.reverse()" for s in stmts)
-        prefix = "append(len(length_octets) | 128)" in txt and "extend(length_octets)" in txt
-        order = txt.find("reverse()") < txt.find("append(len(length_octets) | 128)") < txt.find("extend(length_octets)")
-        if shape and rev and prefix and order:
-            return True, "octets produced least significant first while the value is non-zero, reversed, prefixed with 0x80 | count: minimal and big-endian"
-        return False, f"long form length is not built as 'while length: append(length & 0xFF); length >>= 8; reverse; 0x80 | count' ({txt[:160]})"
-    if "bit_length() + 7) // 8" in txt and "to_bytes(" in txt and "'big'" in txt and "| 128" in txt:
-        return True, "length.to_bytes((bit_length + 7) // 8, 'big') prefixed with 0x80 | count: minimal and big-endian"
-    return False, f"long form length octets are not derived from the value's magnitude ({txt[:160]}): fixed-width encodings emit leading zero octets, which is BER, not DER"
+def minimal_long_form(repo: Repo, f: Func) -> t.Tuple[bool, str, t.Optional[ast.AST]]:
+    """DER: the length is encoded in the minimum number of octets, most significant first.  Accepted constructions:
+    (a) while V: L.append(V & 0xFF); V >>= 8  followed by L.reverse()   (b) V.to_bytes((V.bit_length() + 7) // 8, 'big')"""
+    for lp in [n for n in body_nodes(f.node) if isinstance(n, ast.While) and isinstance(n.test, ast.Name)]:
+        v = lp.test.id
+        app = [s for s in lp.body if isinstance(s, ast.Expr) and isinstance(s.value, ast.Call) and isinstance(s.value.func, ast.Attribute) and s.value.func.attr == "append" and isinstance(s.value.func.value, ast.Name)]
+        shr = [s for s in lp.body if isinstance(s, ast.AugAssign) and isinstance(s.op, ast.RShift) and unparse(s.target) == v and repo.try_fold(s.value, f.mod) == (True, 8)]
+        if len(app) == 1 and len(shr) == 1 and len(lp.body) == 2 and app[0].lineno < shr[0].lineno:
+            arg = app[0].value.args[0]  # type: ignore[attr-defined]
+            okarg = isinstance(arg, ast.BinOp) and isinstance(arg.op, ast.BitAnd) and unparse(arg.left) == v and repo.try_fold(arg.right, f.mod) == (True, 255)
+            lst = app[0].value.func.value.id  # type: ignore[attr-defined]
+            rev = [n for n in body_nodes(f.node) if isinstance(n, ast.Call) and isinstance(n.func, ast.Attribute) and n.func.attr == "reverse" and unparse(n.func.value) == lst and n.lineno > lp.lineno]
+            if okarg and rev:
+                return True, "octets taken least significant first while the value is non-zero, then reversed: minimal and big-endian", lp
+            return False, f"length loop appends {unparse(arg)} {'and is not reversed' if not rev else ''}: not the big-endian minimal octets", lp
+    for n in body_nodes(f.node):
+        if isinstance(n, ast.Call) and isinstance(n.func, ast.Attribute) and n.func.attr == "to_bytes" and n.args:
+            w = unparse(n.args[0])
+            v = unparse(n.func.value)
+            big = any(unparse(x) == "'big'" for x in list(n.args[1:2]) + [k.value for k in n.keywords if k.arg == "byteorder"])
+            if big and w in (f"({v}.bit_length() + 7) // 8", f"math.ceil({v}.bit_length() / 8)"):
+                return True, "to_bytes((bit_length + 7) // 8, 'big'): minimal and big-endian", n
+    return False, "the long form length octets are not derived from the value's magnitude (while v: append(v & 0xFF); v >>= 8; reverse): fixed-width encodings emit leading zero octets, which is BER, not DER", None
 
 
 # ------------------------------------------------------------------------- O3
